@@ -214,7 +214,7 @@ reg(Spec("C13", "c13_dma.cpp", needs=("shim",),
          cases={"quick": 4000, "thorough": 80000},
          rule="rapidcheck-generated histories of 1..3 transfers (later ones often on the channel of the first) on one real Teakra "
               "instance: channel 0..7, size0/1/2 from {0,1,2,1..24/8/5} (one DSP->DSP transfer in 24 is a single long row with SIZE0 at a width boundary: 0xFFFF, 0xFFFE, 0x8001, 0x8000, 0x7FFF, ... up to 65 535 elements), source / destination steps from {0, unit, 2, small, "
-              "<400}, word / double-word mode, spaces DSP->DSP (30 % deliberately overlapping), ext->DSP, DSP->ext through an AHBM "
+              "<400; one in ten has the top bit set: 0x8000, 0xFFFE, ... added to the address as an unsigned number, the transfer shrunk until the walk fits}, word / double-word mode, spaces DSP->DSP (30 % deliberately overlapping), ext->DSP, DSP->ext through an AHBM "
               "channel with matching unit size and direction, bursts x4/x8 with step = unit size and whole bursts, start "
               "addresses anywhere in the 17-bit data space (bank boundary straddled), started through the host accessor or the "
               "DSP data path. Oracle: element sequence of dma.md applied in order to a model memory / model external memory; "
